@@ -10,7 +10,7 @@ def parseVar (s : String) : Option Var :=
   | [a, b, r, al, c, i] =>
     some { start := a.toNat!, stop := b.toNat!, ref := r.toList, alt := al.toList,
            cls := if c == "S" then .snv else if c == "I" then .indel else .other,
-           ids := [i.toNat!] }
+           ids := [i.toNat!], touch := if c == "D" then a.toNat! + 1 else a.toNat! }
   | _ => none
 
 def mkCfg (rule exc misc minMw minLen maxLen sect w2f canon : String) : Option Cfg := do
